@@ -176,8 +176,8 @@ def run_shard(spec, ctx):
     if rec.violations:
         return rec
     skel.hyp_chunks(skel.long_texts(ctx.pick(400, 2000)).map(lambda s: {"kind": "plain", "src": s}), check_case, ctx,
-                    ctx.pick(250, 1500), rec, "long", chunk=500)
-    skel.hyp_chunks(skel_strategy(SHARD_SYN[ctx.index % 16]), check_case, ctx, ctx.pick(1500, 18000), rec, "skel")
+                    ctx.pick(250, 2000), rec, "long", chunk=500)
+    skel.hyp_chunks(skel_strategy(SHARD_SYN[ctx.index % 16]), check_case, ctx, ctx.pick(1500, 24000), rec, "skel")
     return rec
 
 
